@@ -460,6 +460,7 @@ Result QsbrEngine::run(const Case& c) {
     live_bytes(&nb);
     if (nb != 0) fail("leak", std::to_string(nb) + " blocks still allocated at the end of the run");
   }
+  if (const std::string bad = qsbr_idle_selftest(); !bad.empty()) fail("qsbr-state-inconsistent", bad);
   W = nullptr;
   run_end(res);
   res.nontrivial = false;
